@@ -345,6 +345,9 @@ func (m *IntegerPreAgg) addValues(col *record.ColVal, times []int64) {
 	values := col.IntegerValues()
 	valLen := len(values)
 	agg := m.values
+	// the first value always replaces the initial sentinels, so that a column holding
+	// only math.MaxInt64 / math.MinInt64 still gets the time of its min / max
+	seen := agg[countIndex] > 0
 	for i, j := 0, 0; i < col.Len; i++ {
 		if col.NilCount > 0 && col.IsNil(i) {
 			continue
@@ -352,14 +355,15 @@ func (m *IntegerPreAgg) addValues(col *record.ColVal, times []int64) {
 
 		v := values[j]
 		j++
-		if agg[minIndex] > v {
+		if !seen || agg[minIndex] > v {
 			agg[minIndex] = v
 			agg[minTIndex] = times[i]
 		}
-		if agg[maxIndex] < v {
+		if !seen || agg[maxIndex] < v {
 			agg[maxIndex] = v
 			agg[maxTIndex] = times[i]
 		}
+		seen = true
 
 		agg[sumIndex] += v
 	}
@@ -557,6 +561,9 @@ func (m *FloatPreAgg) sum() interface{} {
 func (m *FloatPreAgg) addValues(col *record.ColVal, times []int64) {
 	values := col.FloatValues()
 	valLen := len(values)
+	// the first value always replaces the initial sentinels (+-math.MaxFloat64), which
+	// +Inf / -Inf never beat in a comparison
+	seen := m.countV > 0
 	for i, j := 0, 0; i < col.Len; i++ {
 		if col.NilCount > 0 && col.IsNil(i) {
 			continue
@@ -564,14 +571,15 @@ func (m *FloatPreAgg) addValues(col *record.ColVal, times []int64) {
 
 		v := values[j]
 		j++
-		if m.minV > v {
+		if !seen || m.minV > v {
 			m.minV = v
 			m.minTime = times[i]
 		}
-		if m.maxV < v {
+		if !seen || m.maxV < v {
 			m.maxV = v
 			m.maxTime = times[i]
 		}
+		seen = true
 
 		m.sumV += v
 	}
